@@ -377,20 +377,18 @@ def _calculate_transition_events(
         # Indices when atom jumps in or out of site
         (i,) = np.nonzero((atom_site != np.roll(atom_site, shift=-1)))
 
-        # continue if atom does not jump
-        if len(i) < 1:
-            continue
-
         # Indices when atom jumps in or out of inner site
         (i2,) = np.nonzero((atom_inner_site != np.roll(atom_inner_site, shift=-1)))
 
-        # Drop last event if it is on the last timestep (side effect of np.roll)
-        if i[-1] == len(atom_site) - 1:
-            i = i[:-1]
-        if i2[-1] == len(atom_inner_site) - 1:
-            i2 = i2[:-1]
+        # Drop event on the last timestep (side effect of np.roll)
+        i = i[i != len(atom_site) - 1]
+        i2 = i2[i2 != len(atom_inner_site) - 1]
 
         time = np.unique(np.concatenate((i, i2)))
+
+        # continue if atom does not jump
+        if len(time) < 1:
+            continue
 
         # Select the timestep just before the transition out of the site
         transitions = np.vstack(
